@@ -10,7 +10,7 @@ prop, tier, seeds = sys.argv[1], sys.argv[2], sys.argv[3:] or ['1', '2', '3']
 sigs = {}
 for s in seeds:
     fn = tempfile.mktemp(prefix='samples_')
-    env = dict(os.environ, VERIF_SEED=s, VERIF_DUMP_SAMPLES=fn)
+    env = dict(os.environ, VERIF_SEED=s, VERIF_DUMP_SAMPLES=fn, VERIF_REFINE_SIGS='1')
     subprocess.run([os.path.join(V, 'check'), prop, tier], env=env, stdout=subprocess.DEVNULL, stderr=subprocess.DEVNULL, cwd=V)
     if os.path.exists(fn):
         for fid, infos in json.load(open(fn)).items():
